@@ -1,6 +1,7 @@
 import Typegen.Order
 import Typegen.SortGen
 import Typegen.Generate
+import Typegen.Inert
 /-! # C13 — output is a deterministic function of sources and configuration
 
 Every place where the tool iterates a `HashMap`/`HashSet`/directory listing to produce *ordered*
@@ -59,5 +60,35 @@ theorem C13_output_permutation_invariant (cfg : Gn.Config) (p₁ p₂ : Pj.Proje
     (huniq : ∀ f g, f ∈ p₁.files → g ∈ p₁.files → f.relPath = g.relPath → f = g) :
     Gn.generate cfg (An.analyze p₁) = Gn.generate cfg (An.analyze p₂) := by
   rw [An.analyze_perm p₁ p₂ hr h huniq]
+
+/-! ## inserting items that are none of the tool's business -/
+
+/-- **C13, insertion, on the whole model**: inserting, at any position of any file, an item that is no function and no
+    type (a `use`, a `const`, a `mod`, an `impl` — to `syn` a comment or blank line is not even that), a type without
+    the serde derive, or a function that is no command, emits nothing and does not carry the name of another function of
+    the file, leaves the analysis — commands, events, discovered types, dependency sets — unchanged.
+    (The side condition on function names is not idle: channels are read off the *first* function of a command's name,
+    `find_function_in_ast`.) -/
+theorem C13_insert_inert_analysis (p : Pj.Project) (path : Str) (k : Nat) (it : Pj.Item)
+    (h : ∀ f ∈ p.files, f.relPath = path → An.inert path f.items it = true) :
+    An.analyze { p with files := p.files.map (An.insertAt path k it) } = An.analyze p :=
+  An.analyze_insert_inert p path k it h
+
+/-- … and so are all generated files, in both modes, under every configuration -/
+theorem C13_insert_inert_output (cfg : Gn.Config) (p : Pj.Project) (path : Str) (k : Nat) (it : Pj.Item)
+    (h : ∀ f ∈ p.files, f.relPath = path → An.inert path f.items it = true) :
+    Gn.generate cfg (An.analyze { p with files := p.files.map (An.insertAt path k it) }) = Gn.generate cfg (An.analyze p) := by
+  rw [An.analyze_insert_inert p path k it h]
+
+/-- the analysis reads a file through four functions of its items only (what the insertion theorem rests on) -/
+theorem C13_analysis_reads_four_views (p : Pj.Project) (g : Pj.File → Pj.File) (h : ∀ f ∈ p.files, An.SameToAnalysis f (g f)) :
+    An.analyze { p with files := p.files.map g } = An.analyze p := An.analyze_congr g p h
+
+/-! non-vacuity: an `other` item and a struct without the derive are inert wherever they are put; a twin of a serde type
+    that lacks the derive is inert even though it carries the type's name -/
+example (path : Str) (items : List Pj.Item) : An.inert path items .other = true := rfl
+example (path : Str) (items : List Pj.Item) :
+    An.inert path items (.struct { name := cl!"User", attrs := [], shape := .named, fields := [] }) = true := by
+  simp [An.inert, An.shouldInclude]
 
 end TG.C13
